@@ -88,7 +88,7 @@ def pixel_shift_case(draw):
     "C08",
     "pixel_shift",
     pixel_shift_case,
-    quick=400,
+    quick=800,
     thorough=8000,
     tol="ulp32: max|P(shifted)-roll(P)| <= 5e-5*max|P| (float32 pixel coordinates; observed <= 2e-6)",
     rule="shift != 0 modulo gpts along some axis",
@@ -147,7 +147,7 @@ def repetition_case(draw):
     "C08",
     "repetition",
     repetition_case,
-    quick=300,
+    quick=600,
     thorough=6000,
     tol="ulp32: arrays within 5e-5*max|P| (observed <= 2e-6); thicknesses/extent f64 1e-12",
     rule="some repetition > 1",
@@ -215,7 +215,7 @@ def subpixel_case(draw):
     "C08",
     "subpixel_mean",
     subpixel_case,
-    quick=500,
+    quick=1000,
     thorough=10000,
     tol="ulp32: |mean_k(shifted) - mean_k| <= 2e-5 * max_k mean_k (observed <= 1e-6)",
     rule="the shift is not a whole number of pixels",
